@@ -30,7 +30,7 @@ def main():
                         for e in mon.events
                         if e['ev'] in ('os.mkdir', 'os.rename', 'os.remove', 'os.rmdir', 'open_w')])
     for _ in range(nhist):
-        cfg = GenCfg()
+        cfg = GenCfg(p_inner=0.0)      # (inner builds remove their own directory: not part of this comparison)
         program = gen_program(rng, cfg)
         with Scratch('x') as sc:
             w = World(sc, 'k/kk/cache.gz' if rng.random() < 0.3 else 'cache.gz')
